@@ -667,6 +667,30 @@ class VecExpr:
             if ta == tb == "f":
                 op = {ast.Add: "add", ast.Sub: "sub", ast.Mult: "mul", ast.Div: "div"}[type(n.op)]
                 return (f"(PrimFloat.{op} {a} {b})", "f")
+        if isinstance(n, ast.Constant) and isinstance(n.value, (int, float)) and not isinstance(n.value, bool):
+            return (coq_float(float(n.value)) + "%float", "f")
+        if isinstance(n, ast.Compare) and len(n.ops) == 1 and isinstance(n.ops[0], (ast.NotEq, ast.Gt)):
+            (a, ta), (b, tb) = self.tr(n.left), self.tr(n.comparators[0])
+            if ta == "v" and tb == "f":      # array compared with a scalar, element-wise
+                if isinstance(n.ops[0], ast.NotEq):
+                    return (f"(List.map (fun e_ => negb (PrimFloat.eqb e_ {b})) {a})", "bv")
+                return (f"(List.map (fun e_ => PrimFloat.ltb {b} e_) {a})", "bv")
+        if isinstance(n, ast.Subscript) and not isinstance(n.slice, (ast.Slice, ast.Tuple)):
+            (a, ta), (i_, ti_) = self.tr(n.value), self.tr(n.slice)
+            if ta == "v" and ti_ == "bv":
+                return (f"(bgather {i_} {a})", "v")     # boolean-mask indexing
+        if isinstance(n, ast.Call) and ast.unparse(n.func) == "np.where" and len(n.args) == 3 and not n.keywords:
+            (c_, tc_), (a, ta), (b, tb) = [self.tr(x_) for x_ in n.args]
+            if tc_ == "bv" and ta == tb == "v":
+                return (f"(bwhere {c_} {a} {b})", "v")
+        if isinstance(n, ast.Call) and ast.unparse(n.func) == "np.isfinite" and len(n.args) == 1 and not n.keywords:
+            a, ta = self.tr(n.args[0])
+            if ta == "v":
+                return (f"(List.map is_finite {a})", "bv")
+        if isinstance(n, ast.BinOp) and isinstance(n.op, ast.Div):
+            (a, ta), (b, tb) = self.tr(n.left), self.tr(n.right)
+            if ta == tb == "v":
+                return (f"(vmap2 PrimFloat.div {a} {b})", "v")
         if isinstance(n, ast.Compare) and len(n.ops) == 1 and isinstance(n.ops[0], ast.NotEq):
             (a, ta), (b, tb) = self.tr(n.left), self.tr(n.comparators[0])
             if ta == tb == "v":
@@ -845,6 +869,42 @@ def gen_base():
     L.append("Fixpoint bmap2 {A B} (f : A -> B -> bool) (a : list A) (b : list B) : list bool :=\n"
              "  match a, b with x_ :: a', y_ :: b' => f x_ y_ :: bmap2 f a' b' | _, _ => [] end.")
     L.append(f"Definition free_mask (x_cp lb ub : vec) : list bool := {m_}.")
+    # linesearch.max_allowed_steplength for n_iter > 0 (the iteration-0 rule is pinned in Consts.v):
+    #   with np.errstate(...): _mask = ...; _tmp = ...; if _tmp[np.isfinite(_tmp)].size == 0: return cap; return min(cap, np.nanmin(_tmp[np.isfinite(_tmp)]))
+    fn = _func(lt0, "max_allowed_steplength")
+    if [a.arg for a in fn.args.args] != ["x", "d", "lb", "ub", "max_steplength", "n_iter"]:
+        raise TranslateError("max_allowed_steplength: unexpected parameters")
+    body = [st for st in fn.body if not (isinstance(st, ast.Expr) and isinstance(st.value, ast.Constant))]
+    if not (len(body) == 2 and isinstance(body[0], ast.If) and ast.unparse(body[0].test) == "n_iter == 0" and isinstance(body[1], ast.With)
+            and ast.unparse(body[1].items[0].context_expr).startswith("np.errstate(")):
+        raise TranslateError("max_allowed_steplength: unexpected shape")
+    wb = body[1].body
+    env = {"x": ("x", "v"), "d": ("d", "v"), "lb": ("lb", "v"), "ub": ("ub", "v"), "max_steplength": ("cap", "f")}
+    lets = []
+    while wb and isinstance(wb[0], ast.Assign) and len(wb[0].targets) == 1 and isinstance(wb[0].targets[0], ast.Name):
+        t_, ty_ = VecExpr(env).tr(wb[0].value)
+        nm = wb[0].targets[0].id.lstrip("_") + "_"
+        lets.append(f"let {nm} := {t_} in")
+        env[wb[0].targets[0].id] = (nm, ty_)
+        wb = wb[1:]
+    if not (len(wb) == 2 and isinstance(wb[0], ast.If) and not wb[0].orelse and len(wb[0].body) == 1 and ast.unparse(wb[0].body[0]) == "return max_steplength"
+            and isinstance(wb[0].test, ast.Compare) and ast.unparse(wb[0].test.comparators[0]) == "0"
+            and isinstance(wb[0].test.left, ast.Attribute) and wb[0].test.left.attr == "size" and isinstance(wb[0].test.ops[0], ast.Eq)
+            and isinstance(wb[1], ast.Return)):
+        raise TranslateError("max_allowed_steplength: unexpected tail")
+    fin_, tf_ = VecExpr(env).tr(wb[0].test.left.value)
+    r_ = wb[1].value
+    if not (isinstance(r_, ast.Call) and ast.unparse(r_.func) == "min" and len(r_.args) == 2 and ast.unparse(r_.args[0]) == "max_steplength"
+            and isinstance(r_.args[1], ast.Call) and ast.unparse(r_.args[1].func) == "np.nanmin" and len(r_.args[1].args) == 1):
+        raise TranslateError("max_allowed_steplength: unexpected return " + ast.unparse(r_))
+    fin2_, _ = VecExpr(env).tr(r_.args[1].args[0])
+    if tf_ != "v" or fin_ != fin2_:
+        raise TranslateError("max_allowed_steplength: the emptiness test and the minimum are not over the same array")
+    L.append("Fixpoint bgather (m : list bool) (v : vec) : vec :=\n  match m, v with b_ :: m', e_ :: v' => if b_ then e_ :: bgather m' v' else bgather m' v' | _, _ => [] end.")
+    L.append("Fixpoint bwhere (c : list bool) (a b : vec) : vec :=\n  match c, a, b with c_ :: c', p_ :: a', q_ :: b' => (if c_ then p_ else q_) :: bwhere c' a' b' | _, _, _ => [] end.")
+    L.append("(* np.nanmin of an array without NaN: the minimum (Model/FloatVec.vmin); Python's min(a, b): pymin *)")
+    L.append("Definition max_allowed_steplength (x d lb ub : vec) (cap : float) : float :=\n  " + " ".join(lets)
+             + f" let fin_ := {fin_} in\n  match fin_ with [] => cap | _ => pymin cap (vmin fin_ cap) end.")
     # the call sites in main.py: is_boxed, the loop guard and the final test
     mt = ast.parse(_src("main.py"))
     mf = _func(mt, "minimize_lbfgsb")
